@@ -120,6 +120,8 @@ def check_paths(rep, tag, H, outs, maxdepth, mindepth, faults, start=0):
         n_ok, n_all = o['nleap_ok'], o['nleap']
         if not (depth <= maxdepth and 2 ** depth - 1 <= n_all <= 2 ** (depth + 1) - 1):
             rep.violated(tag + ' (2) depth/steps bounds', 'tree.bounds', 'depth=%d leapfrogs=%d violates 2^d-1 <= steps <= 2^(d+1)-1 or depth <= maxdepth: %s' % (depth, n_all, desc), model=desc); nv += 1
+        if kind == 'div' and o['maxdepth_flag'] is not False and rep.pid == 'C03':      # a C03 clause (C05 only asks that the draw is reported divergent)
+            rep.violated(tag + ' (3) maxdepth flag only when maxdepth was the only reason to stop', 'tree.maxdepth_flag', 'a trajectory that stopped on a divergence carries the reached-maxdepth flag: %s' % desc, model=desc); nv += 1
         if kind in ('div',) and (not o['leapfrogs'] or o['leapfrogs'][-1][1] != 1):
             rep.violated(tag + ' divergence info only from a divergent leapfrog', 'tree.div_source', 'divergence reported but last leapfrog was not divergent: %s' % desc, model=desc); nv += 1
         if kind not in ('div',) and any(k != 0 for (_, k) in o['leapfrogs']):
